@@ -15,8 +15,9 @@ case "$PROP" in
   C20)
     # children run under the race detector; a report aborts the child with exit 66
     build_race || exit 2
+    build_race_keep || exit 2
     export GORACE="halt_on_error=1 exitcode=66"
-    exec "$BIN" check --prop "$PROP" --tier "$TIER" --childbin "$VERIF_DIR/.build/ottosim_race" --altbin "$BIN" ;;
+    exec "$BIN" check --prop "$PROP" --tier "$TIER" --childbin "$VERIF_DIR/.build/ottosim_race" --altbin "$BIN" --keepbin "$VERIF_DIR/.build/ottosim_racekeep" ;;
   *)
     exec "$BIN" check --prop "$PROP" --tier "$TIER" ;;
 esac
